@@ -58,7 +58,9 @@ top:
 		a0 = slip.FindFunc(string(ta))
 		goto top
 	case *slip.FuncInfo:
-		aux, _ = ta.Aux.(*Aux)
+		if ta != nil {
+			aux, _ = ta.Aux.(*Aux)
+		}
 	}
 	if aux == nil {
 		slip.TypePanic(s, depth, "generic-function", args[0], "symbol", "generic-function")
